@@ -286,6 +286,10 @@ def val2bytes(val, att: str) -> bytes:
         raise ube.UBXTypeError(f"Unknown attribute type {att}") from err
 
     if atttyp(att) == "X":  # byte
+        if len(val) != attsiz(att):
+            raise ube.UBXTypeError(
+                f"Attribute type {att} value {val} must be {attsiz(att)} bytes long"
+            )
         valb = val
     elif atttyp(att) == "C":  # char
         valb = val.encode("utf-8", "backslashreplace") if isinstance(val, str) else val
@@ -294,6 +298,10 @@ def val2bytes(val, att: str) -> bytes:
     elif atttyp(att) == "R":  # floating point
         valb = struct.pack("<f" if attsiz(att) == 4 else "<d", float(val))
     elif atttyp(att) == "A":  # array of unsigned integers
+        if len(val) != attsiz(att):
+            raise ube.UBXTypeError(
+                f"Attribute type {att} value must have {attsiz(att)} elements"
+            )
         valb = b""
         for i in range(attsiz(att)):
             valb += val[i].to_bytes(1, byteorder="little", signed=False)
